@@ -69,12 +69,17 @@ def impl(case) -> str:
         return " ".join(show_str(x) for x in (lq, irc.lowDequote(lq), irc.lowDequote(s),
                                               xq, irc.ctcpDequote(xq), irc.ctcpDequote(s)))
     c, t = _client(case.get("nicklen"))
-    fn = c.msg if case["type"] == "PRIVMSG" else c.notice
-    try:
-        fn(case["user"], case["message"], case["length"])
-    except ValueError:
-        return "ValueError"
-    return "|".join(w.hex() for w in t.writes)
+    calls = case["calls"] if case["kind"] == "hist" else [case]
+    out = []
+    for call in calls:
+        t.writes.clear()
+        fn = c.msg if call["type"] == "PRIVMSG" else c.notice
+        try:
+            fn(call["user"], call["message"], call["length"])
+            out.append("|".join(w.hex() for w in t.writes))
+        except ValueError:
+            out.append("ValueError")
+    return ";".join(out)
 
 
 # --------------------------------------------------------------------------------------
@@ -158,6 +163,23 @@ def oracle(case, obs):
         if 1 in xq:
             return Failure(case, f"ctcpQuote output {parts[3]} contains X-DELIM", "ctcp-delimiter")
         return None
+    if case["kind"] == "hist":
+        obss = obs.split(";")
+        if len(obss) != len(case["calls"]):
+            return Failure(case, "malformed history observation", "history")
+        for i, (call, o) in enumerate(zip(case["calls"], obss)):
+            sub = dict(call, kind="send")
+            if "nicklen" in case:
+                sub["nicklen"] = case["nicklen"]
+            f = oracle(sub, o)
+            if f is not None:
+                # a call that fails on its own fails the same way alone; what is specific to a history is a call
+                # that is fine alone: tag it as depending on the earlier calls
+                alone = oracle(sub, impl(sub))
+                tag = f.tag if alone is not None and alone.tag == f.tag else "history-dependent:" + f.tag
+                return Failure(case, f"call {i + 1} of {len(obss)} on the same client ({call['type']} {call['user']!r}, "
+                               f"length={call['length']}): {f.reason}", tag)
+        return None
     fmt = "%s %s :" % (case["type"], case["user"])
     limit = _limit(case)
     if limit <= len(fmt) + 2:
@@ -237,6 +259,9 @@ def model_equal(case, a, b):
     # when it satisfies the whole property on this case
     if case["kind"] == "send" and _in_finding_class(case) and a != "ValueError" and oracle(case, a) is None:
         return True
+    if case["kind"] == "hist" and a.count(";") == b.count(";") == len(case["calls"]) - 1:
+        return all(model_equal(dict(call, kind="send", **({"nicklen": case["nicklen"]} if "nicklen" in case else {})), x, y)
+                   for call, x, y in zip(case["calls"], a.split(";"), b.split(";")))
     return False
 
 
@@ -270,6 +295,10 @@ def corpus():
         {"kind": "send", "type": "PRIVMSG", "user": "u", "message": "x", "length": 13},
         {"kind": "send", "type": "PRIVMSG", "user": "u", "message": "x y", "length": 14},
         {"kind": "send", "type": "PRIVMSG", "user": "foo", "message": "ab\rcd", "length": 20},
+        {"kind": "send", "type": "PRIVMSG", "user": "u", "message": "w" * 900, "length": 700},
+        {"kind": "hist", "calls": [{"type": "PRIVMSG", "user": "u", "message": "hello", "length": None},
+                                   {"type": "PRIVMSG", "user": "u", "message": "hello world " * 12, "length": 40},
+                                   {"type": "PRIVMSG", "user": "u", "message": "x", "length": 12}]},
         {"kind": "quote", "s": "\x10\x00\n\r\x100n\x10"},
         {"kind": "quote", "s": "\\\x01\\a\x01b\\"},
     ]
@@ -299,6 +328,42 @@ def gen(rng, tier):
         case = {"kind": "send", "type": typ, "user": user, "message": _message(rng), "length": length}
         if length is None and rng.random() < 0.5:
             case["nicklen"] = rng.choice([1, 9, 30, 200, 330])
+        cases.append(case)
+    # explicit limits above MAX_COMMAND_LENGTH with long words / long spans between newlines: nothing may be
+    # cut at the transport
+    for _ in range(40 if tier == "quick" else 400):
+        typ, user = rng.choice(["PRIVMSG", "NOTICE"]), rng.choice(["u", "#chan"])
+        length = rng.choice([513, 600, 700, 1500, 512, 511])
+        n = rng.randrange(480, 1700)
+        if rng.random() < 0.5:
+            msg = "".join(rng.choice("abcdefghij") for _ in range(n))
+        else:
+            msg = " ".join("".join(rng.choice("klmnop") for _ in range(rng.randrange(1, 12))) for _ in range(n // 6))
+        if rng.random() < 0.3:
+            msg = msg[: n // 2] + "\n" + msg[n // 2:]
+        cases.append({"kind": "send", "type": typ, "user": user, "message": msg, "length": length})
+    # histories: several calls on ONE client with varying length (None then explicit, explicit then None,
+    # different explicit values), same and different targets; each call must behave as it does alone
+    for _ in range(120 if tier == "quick" else 1500):
+        users = rng.sample(["u", "#chan", "nick", "foo"], 2)
+        calls = []
+        for _ in range(rng.randrange(2, 5)):
+            typ = rng.choice(["PRIVMSG", "PRIVMSG", "NOTICE"])
+            user = users[0] if rng.random() < 0.7 else users[1]
+            minimum = len("%s %s :" % (typ, user)) + 2
+            r = rng.random()
+            if r < 0.35:
+                length = None
+            elif r < 0.5:
+                length = minimum + rng.choice([-1, 0, 1, 5])
+            else:
+                length = rng.randrange(minimum + 5, 120)
+            words = rng.randrange(1, 90 if rng.random() < 0.4 else 12)
+            msg = " ".join(rng.choice(["hello", "world", "ab", "x", "longerword"]) for _ in range(words))
+            calls.append({"type": typ, "user": user, "message": msg, "length": length})
+        case = {"kind": "hist", "calls": calls}
+        if rng.random() < 0.3:
+            case["nicklen"] = rng.choice([1, 9, 30])
         cases.append(case)
     # texts with bare CRs and no LF that fit one line, at and just below the limit
     for _ in range(120 if tier == "quick" else 1200):
@@ -330,6 +395,17 @@ def coq_cps(s: str) -> str:
 def to_coq(case):
     if case["kind"] == "quote":
         return "CQuote " + coq_cps(case["s"])
+    if case["kind"] == "hist":
+        terms = []
+        for call in case["calls"]:
+            sub = dict(call, kind="send")
+            if "nicklen" in case:
+                sub["nicklen"] = case["nicklen"]
+            t = to_coq(sub)
+            if t is None:
+                return None
+            terms.append("(" + t + ")")
+        return "CHist [" + "; ".join(terms) + "]"
     if any(0xD800 <= ord(c) <= 0xDFFF for c in case["message"] + case["user"]):
         return None
     table, width = _wrap_table(case)
@@ -344,6 +420,17 @@ def to_coq(case):
 
 
 def shrink(case):
+    if case["kind"] == "hist":
+        calls = case["calls"]
+        for i in range(len(calls)):
+            if len(calls) > 1:
+                yield dict(case, calls=calls[:i] + calls[i + 1:])
+        for i, call in enumerate(calls):
+            m = call["message"]
+            for cut in (len(m) // 2, len(m) // 4, 8, 1):
+                if cut and len(m) > cut:
+                    yield dict(case, calls=calls[:i] + [dict(call, message=m[:-cut])] + calls[i + 1:])
+        return
     if case["kind"] == "quote":
         s = case["s"]
         for i in range(len(s)):
@@ -363,6 +450,8 @@ def shrink(case):
 def hist(case, obs):
     if case["kind"] == "quote":
         return "quote"
+    if case["kind"] == "hist":
+        return "history-%d-calls" % len(case["calls"])
     if obs == "ValueError":
         return "send:ValueError"
     n = obs.count("|") + 1 if obs else 0
@@ -383,7 +472,7 @@ SPEC = Spec(
     histogram=hist,
     model_equal=model_equal,
     nontrivial=lambda c, o: (c["kind"] == "quote" and any(ch in c["s"] for ch in "\x10\x00\n\r\\\x01")) or
-                            (c["kind"] == "send" and "|" in o),
+                            (c["kind"] in ("send", "hist") and "|" in o),
     rule="quote: every string of length <= 3 (thorough 4) over {DLE NUL LF backslash X-DELIM a 0} and random strings "
          "over the quoting alphabets (quote, dequote of the quoted, dequote of the raw string, for both levels); send: "
          "msg/notice to 5 targets with messages of 0..13 words from an 18-word list (long words, multi-byte, astral, "
